@@ -238,7 +238,6 @@ func (p *Parser) statement() (Statement, error) {
 		return &StatementIf{expr, body, elseBody}, nil
 	case While:
 		wasInLoop := p.inLoop
-		p.inLoop = true
 		defer func() { p.inLoop = wasInLoop }()
 
 		if err := p.consume(While); err != nil {
@@ -257,6 +256,8 @@ func (p *Parser) statement() (Statement, error) {
 			return nil, err
 		}
 
+		// break and continue are only valid in the body, not in the condition
+		p.inLoop = true
 		body, err := p.statement()
 		if err != nil {
 			return nil, err
@@ -265,7 +266,6 @@ func (p *Parser) statement() (Statement, error) {
 		return &StatementWhile{expr, body}, nil
 	case For:
 		wasInLoop := p.inLoop
-		p.inLoop = true
 		defer func() { p.inLoop = wasInLoop }()
 
 		// for (
@@ -303,6 +303,7 @@ func (p *Parser) statement() (Statement, error) {
 					return nil, err
 				}
 
+				p.inLoop = true
 				body, err := p.statement()
 				if err != nil {
 					return nil, err
@@ -334,6 +335,7 @@ func (p *Parser) statement() (Statement, error) {
 			return nil, err
 		}
 
+		p.inLoop = true
 		body, err := p.statement()
 		if err != nil {
 			return nil, err
